@@ -24,6 +24,18 @@ def _opt_switch(pf, name, flag, value_path):
     return False
 
 
+def _loc(g_, e):
+    """a local name bound exactly once in g_ (or its enclosing function) to an attribute path denotes that path (n_word = self.n_word)"""
+    if isinstance(e, ast.Name):
+        for fn in (g_, getattr(g_, "parent", None)):
+            if fn is None:
+                continue
+            asg = [n for n in ast.walk(fn.node) if isinstance(n, ast.Assign) and any(isinstance(t, ast.Name) and t.id == e.id for t in n.targets)]
+            if len(asg) == 1 and dotted(asg[0].value) and dotted(asg[0].value).startswith("self."):
+                return asg[0].value
+    return e
+
+
 def render_sites(ck, rule):
     """C11.R1: every binary_repr / hex_repr call in bin() and hex() renders with the object's own n_word, the code as Python int(s),
     the binary point at n_frac exactly when frac_dot is requested, and hex digits taken from the n_word-bit binary image (base=2)."""
@@ -50,7 +62,7 @@ def render_sites(ck, rule):
                 # helper closure: every call of the helper passes int(...) / utils.int_array(...)
                 hc = [c2 for _, c2 in [(q_, n2) for q_, n2 in walk_closure(prog, b) if isinstance(n2, ast.Call)] if isinstance(c2.func, ast.Name) and c2.func.id == g_.name]
                 okint = bool(hc) and all(c2.args and isinstance(c2.args[0], ast.Call) and dotted(c2.args[0].func) in ("int", "utils.int_array") for c2 in hc)
-            ck.check(dotted(nw) == "self.n_word", rule, b, "bin() renders n_word characters: binary_repr(n_word=self.n_word)", "n_word=%s" % (src(nw) if nw is not None else None), c,
+            ck.check(dotted(_loc(g_, nw)) == "self.n_word", rule, b, "bin() renders n_word characters: binary_repr(n_word=self.n_word)", "n_word=%s" % (src(nw) if nw is not None else None), c,
                      "the image is shorter/longer than the word")
             ck.check(dotted(nf) == "n_frac_dot", rule, b, "bin() passes the requested point position", "n_frac=%s" % (src(nf) if nf is not None else None), c, nontrivial=False)
             ck.check(okint, rule, b, "bin() renders the code as exact Python integer(s)", "value %s" % (src(x)[:50] if x is not None else None), c, "floats / numpy scalars of wide words lose bits")
@@ -79,7 +91,8 @@ def render_sites(ck, rule):
             if isinstance(xi, ast.Call) and prog.resolve_call(h, xi) == b.qualname and not xi.args and not xi.keywords:
                 okx = True
             elif isinstance(xi, ast.Call) and prog.resolve_call(h, xi) == "utils.binary_repr":
-                okx = dotted(kw(xi, "n_word", 1)) == "self.n_word" and isinstance(kw(xi, "n_frac", 2), ast.Constant) and kw(xi, "n_frac", 2).value is None and kw(xi, "prefix") is None
+                nfx = kw(xi, "n_frac", 2)
+                okx = dotted(_loc(g_, kw(xi, "n_word", 1))) == "self.n_word" and (nfx is None or (isinstance(nfx, ast.Constant) and nfx.value is None)) and kw(xi, "prefix", 3) is None
             elif isinstance(xi, ast.Name):
                 # comprehension variable iterating self.bin()
                 for comp in ast.walk(h.node):
